@@ -311,6 +311,54 @@ func checkPopOne(c *Ctx, rule string, sp popSpec) {
 		}
 		c.check(good, rule, sp.Label+"/getter-reads-list", w.pos(g.Pos()), sp.Getter+" consults the header list on every call", sp.Getter+" can answer without looking "+sp.Header+" up in the header list (a cached flag or early return): after the first "+sp.Header+" line has been removed the remaining lines are not seen, so the request is no longer routed by them and they are relayed untouched")
 	}
+	// the object the getter hands out is the one the header keeps: a pop (or a stamp) on it changes the message
+	if g := c.fn(rule, sp.Getter); g != nil {
+		good, n := true, 0
+		for _, r := range returnsUnder(g, nil) {
+			if len(r.Results) != 2 {
+				continue
+			}
+			ev := r.Results[1]
+			if w.isFreshError(ev) || w.requires(g, r, func(a Atom) bool { return a.Kind == "nil" && strip(a.X) == strip(ev) }, false) {
+				continue // an error return
+			}
+			for _, v := range phiLeaves(r.Results[0]) {
+				n++
+				v = strip(v)
+				if e, ok := v.(*ssa.Extract); ok && e.Index == 0 {
+					if ta, ok := e.Tuple.(*ssa.TypeAssert); ok {
+						if _, isHV := isLoadOf(ta.X, "Header.value"); isHV {
+							continue
+						}
+					}
+				}
+				if ta, ok := v.(*ssa.TypeAssert); ok && !ta.CommaOk {
+					if _, isHV := isLoadOf(ta.X, "Header.value"); isHV {
+						continue
+					}
+				}
+				kept := false
+				for _, st := range w.fieldStores(g, "Header.value") {
+					sv := st.Val
+					if mi, ok := sv.(*ssa.MakeInterface); ok {
+						sv = mi.X
+					}
+					// stored into the header of the message (the object GetHeader found), not into a copy of it
+					base := strip(st.Addr.(*ssa.FieldAddr).X)
+					if w.resultOfCallTo(base, "(*Message).GetHeader", 0) == nil {
+						continue
+					}
+					if strip(sv) == v && mustPrecede(g, []ssa.Instruction{st}, r, nil) {
+						kept = true
+					}
+				}
+				if !kept {
+					good = false
+				}
+			}
+		}
+		c.check(good && n >= 2, rule, sp.Label+"/getter-keeps-object", w.pos(g.Pos()), sp.Getter+" returns the object kept in the header (decoded once, stored back)", sp.Getter+" can return a decoded object that the header does not keep (the decoded value is not stored back into the header): an entry removed from it, or a parameter stamped on it, never reaches the message that is relayed - the own "+sp.Header+" entry is not consumed")
+	}
 	pv := c.fn(rule, sp.Fn)
 	if pv != nil {
 		gvs := w.callsIn(pv, sp.Getter)
@@ -343,7 +391,7 @@ func checkPopOne(c *Ctx, rule string, sp popSpec) {
 	if pp := c.fn(rule, sp.PopFn); pp != nil {
 		w.checkDeleteFirst(c, rule, pp, sp.ListRef, sp.PopFn)
 	}
-	c.floor(rule, 5)
+	c.floor(rule, 6)
 }
 
 // checkDeleteFirst verifies that fn's only store to list field ref is ref = ref[1:], that the element
